@@ -63,7 +63,7 @@ def work(run, part, parts):
     import warnings
     warnings.simplefilter("ignore")
     rng = run.rng(f"ser{part}")
-    n = (3000 if run.tier == "quick" else 60000) // parts
+    n = (16000 if run.tier == "quick" else 160000) // parts
 
     def class_defaults(c):
         return {k: getattr(c, k, None) for k in ("alg", "digits", "period", "issuer", "label", "min_json_version", "json_version", "wallet")}
@@ -299,7 +299,7 @@ def corrupted(run):
 
 
 def body(run):
-    P = 8
+    P = 16
     run.parallel("checks.c15", "work", [dict(part=i, parts=P) for i in range(P)], timeout=900 if run.tier == "quick" else 3600)
     corrupted(run)
     for f in ("uri", "json", "dict"):
